@@ -124,9 +124,9 @@ func (c12Engine) Gen(r *core.Rand, tier string, i int) any {
 		a := c12Attempt{Kind: core.Pick(r, c12Kinds)}
 		switch a.Kind {
 		case "write", "append", "printf":
-			a.Target = core.Pick(r, []string{"out1", "out2", "out1", "in1", "-", "/dev/stdout", "/dev/stderr", "sub/out3", "/dev/fd/1", "/dev/fd/2"})
+			a.Target = core.Pick(r, []string{"out1", "out2", "out1", "in1", "-", "/dev/stdout", "/dev/stderr", "sub/out3", "/dev/fd/1", "/dev/fd/2", "./-", "sub/../-"})
 		case "read", "read-var":
-			a.Target = core.Pick(r, []string{"in1", "in2", "in1", "missing", "-", "out1", "empty"})
+			a.Target = core.Pick(r, []string{"in1", "in2", "in1", "missing", "-", "out1", "empty", "./-", "sub/../-"})
 		case "close":
 			a.Target = core.Pick(r, append(files, "cw", "cr"))
 		case "pipe-out":
@@ -161,7 +161,7 @@ func (c12Engine) Gen(r *core.Rand, tier string, i int) any {
 	}
 	sc.Stdin = core.Bytes("s1\ns2\ns3\n")
 	if sc.CustomOpen && r.Chance(1, 6) {
-		sc.Faults = map[string]string{core.Pick(r, []string{"out1", "in1", "out2"}): core.Pick(r, []string{"enoent", "eacces", "devfull", "readonly", "emfile", "emfile"})}
+		sc.Faults = map[string]string{core.Pick(r, []string{"out1", "in1", "out2", "sub/out3"}): core.Pick(r, []string{"enoent", "eacces", "devfull", "readonly", "emfile", "emfile"})}
 	}
 	return sc
 }
